@@ -144,44 +144,28 @@ else: print("  (mutation NOT applied: anti_entropy)")
 PY
 run_check; fi
 
-if sel h3; then echo "== (h3) HARMLESS: SimulatedNode::execute with re-ordered match arms and a new private helper; a new unrelated pub fn on MultiNodeSimulation's file (free function)"
+if sel h3; then echo "== (h3) HARMLESS: SimulatedNode::execute hands its DEL arm to a new private helper; a new unrelated pub fn (free function) in multi_node.rs"
 edit <<'PY'
 p='src/simulator/multi_node.rs'; s=open(p).read()
-old='''        match cmd {
-            Command::Set { key, value, ex, .. } => {
-                let expiry_ms = ex.map(|s| s as u64 * 1000);
-                self.replica_state
-                    .record_write(key.clone(), value.clone(), expiry_ms);
-            }
-            Command::Del(keys) => {
+old="""            Command::Del(keys) => {
                 for key in keys {
                     self.replica_state.record_delete(key.clone());
                 }
             }
-            _ => {}
-        }
-'''
-new='''        match cmd {
-            Command::Del(keys) => self.note_deletes(keys),
-            Command::Set { key, value, ex, .. } => {
-                let expiry_ms = ex.map(|s| s as u64 * 1000);
-                self.replica_state
-                    .record_write(key.clone(), value.clone(), expiry_ms);
-            }
-            _ => {}
-        }
-'''
+"""
+new="""            Command::Del(keys) => self.note_deletes(keys),
+"""
 if old in s:
     s=s.replace(old,new,1)
-    s=s.replace('''    /// Collect pending deltas for gossip
-    pub fn drain_deltas''','''    fn note_deletes(&mut self, keys: &[String]) {
+    s=s.replace("""    /// Collect pending deltas for gossip
+    pub fn drain_deltas""","""    fn note_deletes(&mut self, keys: &[String]) {
         for key in keys {
             self.replica_state.record_delete(key.clone());
         }
     }
 
     /// Collect pending deltas for gossip
-    pub fn drain_deltas''',1)
+    pub fn drain_deltas""",1)
     s += "\n/// milliseconds in a second (unrelated helper)\npub fn millis_per_second() -> u64 {\n    1000\n}\n"
     open(p,'w').write(s)
 else: print("  (mutation NOT applied)")
